@@ -299,10 +299,12 @@ func (e *Engine) Watch(handle Handle, pipeline bsonkit.List, resumeAfter, startA
 	// get oplog
 	oplog := e.catalog.Namespaces[Oplog].Documents
 
-	// get last event
-	var last bsonkit.Doc
+	// the position of a stream is the id timestamp of the last event it has
+	// passed: by default the newest event or, if the oplog is empty, the
+	// newest event that has been removed by retention
+	last := e.catalog.Trimmed
 	if len(oplog.List) > 0 {
-		last = oplog.List[len(oplog.List)-1]
+		last = eventTimestamp(oplog.List[len(oplog.List)-1])
 	}
 
 	// resume after
@@ -311,7 +313,7 @@ func (e *Engine) Watch(handle Handle, pipeline bsonkit.List, resumeAfter, startA
 		for _, event := range oplog.List {
 			res := bsonkit.Compare(*resumeAfter, bsonkit.Get(event, "_id"))
 			if res == 0 {
-				last = event
+				last = eventTimestamp(event)
 				resumed = true
 				break
 			}
@@ -327,7 +329,7 @@ func (e *Engine) Watch(handle Handle, pipeline bsonkit.List, resumeAfter, startA
 		for _, event := range oplog.List {
 			res := bsonkit.Compare(*startAfter, bsonkit.Get(event, "_id"))
 			if res == 0 {
-				last = event
+				last = eventTimestamp(event)
 				resumed = true
 				break
 			}
@@ -338,22 +340,11 @@ func (e *Engine) Watch(handle Handle, pipeline bsonkit.List, resumeAfter, startA
 	}
 
 	// start at: deliver events with clusterTime at or after the given
-	// timestamp; the supplied timestamp need not match an existing event
+	// timestamp; the supplied timestamp need not match an existing event. The
+	// position is the greatest timestamp before it, so that a stream which
+	// starts before the oldest retained event notices removed events
 	if startAt != nil {
-		// position last just before the first event at-or-after startAt; if
-		// every event is older than startAt, leave last at the newest entry
-		// (the stream then waits for future events)
-		for i, event := range oplog.List {
-			res := bsonkit.Compare(*startAt, bsonkit.Get(event, "clusterTime"))
-			if res <= 0 {
-				if i == 0 {
-					last = nil
-				} else {
-					last = oplog.List[i-1]
-				}
-				break
-			}
-		}
+		last = timestampBefore(*startAt)
 	}
 
 	// create stream
@@ -365,10 +356,10 @@ func (e *Engine) Watch(handle Handle, pipeline bsonkit.List, resumeAfter, startA
 	}
 
 	// set oplog method
-	stream.oplog = func() *bsonkit.Set {
+	stream.oplog = func() (*bsonkit.Set, primitive.Timestamp) {
 		e.mutex.Lock()
 		defer e.mutex.Unlock()
-		return e.catalog.Namespaces[Oplog].Documents
+		return e.catalog.Namespaces[Oplog].Documents, e.catalog.Trimmed
 	}
 
 	// set cancel method
